@@ -198,7 +198,7 @@ pub fn run(report: &mut Report, replay: Option<&Value>) {
         }
         for fmt in ["sdl", "json"] {
             let sp = if fmt == "sdl" { scratch.file(&schema.to_sdl(&SdlStyle::default()), "graphql") } else { scratch.file(&schema.to_introspection_text(&JsonStyle::default()), "json") };
-            jobs.push(Job { schema_path: sp, query: QuerySrc::Text(q.clone()), opts: Opts::default() });
+            jobs.push(Job { schema_path: sp, query: QuerySrc::Text(q.clone()), opts: Opts::default(), cwd: None });
             metas.push((kind, fmt, schema.type_name(named).to_string()));
         }
     }
